@@ -10,5 +10,6 @@ import SarpyModel.Props.C09
 import SarpyModel.Props.C08
 import SarpyModel.Props.C12
 import SarpyModel.Props.C17
+import SarpyModel.Props.C14
 import SarpyModel.Gen.NitfTables
 import SarpyModel.Drivers
